@@ -38,3 +38,15 @@ for _pid in ("C02", "C03", "C09"):
         trusted=_PROG_TRUSTED, assumptions=_PROG_ASSUME,
         explanation="theorems over the deep-embedded goal language and the stream/thunk search model; tie: cell traces of generated goal programs run with the real combinators",
     )
+
+_GOMINI_TRUSTED = ["Go values are encoded as terms by the harness (variables by creation order, nil, scalar pointers by content, struct pointers and slices as tagged lists); "
+                   "the encoding is injective (C04_encoding_faithful) and the harness reads bindings back through the exported API (CastVar/Get)",
+                   "gomini's concurrent engine (goroutines, channels, WaitGroup, context) is Go runtime: modelled, not verified"]
+PROPS["C04"] = dict(
+    model="GVal.v",
+    harness=[dict(name="main", n_quick=1500, n_thorough=2500, shards_quick=1, shards_thorough=10)],
+    trusted=_GOMINI_TRUSTED + ["the harness's independent reference unifier (oracle for verdict / most-general / content independence)"],
+    assumptions=["every EqualO compares two values of one static Go type (guaranteed by the generic signature)",
+                 "start bindings are acyclic"],
+    explanation="gomini.EqualO is modelled as the verified unification algorithm on the injective term encoding of Go values; tie: differential execution through the exported gomini API under both placeholder policies",
+)
